@@ -641,6 +641,17 @@ class Program:
                     return c.methods[fn.attr]
             return None
         r = self.resolve(m, fn)
+        if (r is None or (r not in self.functions and r not in self.classes
+                          and not str(r).startswith('ext:'))) \
+                and isinstance(fn, ast.Name) and finfo.cls is not None \
+                and call.args and isinstance(call.args[0], ast.Name) and \
+                call.args[0].id in ('self', 'cls') and \
+                fn.id not in finfo.params:
+            # a function of the class body called with an explicit self
+            # (taken from a class-level table of steps)
+            f = self.find_method(finfo.cls.qual, fn.id)
+            if f is not None and not f.is_static and not f.is_property:
+                return f
         if r is None:
             return None
         if r in self.functions:
@@ -667,11 +678,21 @@ class Program:
                                 and not g.is_property:
                             out.append((n, g))
             elif isinstance(n, ast.Attribute) and isinstance(
-                    n.value, ast.Name) and n.value.id == 'self' \
+                    n.value, ast.Name) and n.value.id in ('self', 'cls') \
                     and finfo.cls is not None and isinstance(n.ctx, ast.Load):
                 f = self.find_method(finfo.cls.qual, n.attr)
                 if f is not None and f.is_property:
                     out.append((n, f))
+                elif f is None:
+                    # a class-level table of the class's own functions
+                    tab = self.class_constants(finfo.cls.qual,
+                                               names_ok=True).get(n.attr)
+                    if isinstance(tab, (ast.Tuple, ast.List)):
+                        for el in tab.elts:
+                            if isinstance(el, ast.Name):
+                                g = self.find_method(finfo.cls.qual, el.id)
+                                if g is not None:
+                                    out.append((n, g))
         self._callees[finfo.qual] = out
         return out
 
